@@ -721,6 +721,21 @@ def rule_tte(F, R):
             R.obligation(not inter, 'T tte disjoint')
             if inter: R.violation('rsbdd::truth_table::TruthTableEntry::matches / T / overlap %s-%s' % (vs[i], vs[j]), 'T', 'spellings %s select both %s and %s' % (sorted(inter), vs[i], vs[j]))
     R.sample({'rule': 'T filter spellings', 'table': {k: sorted(v) for k, v in tab.items()}})
+    # an entry is shown as its own name: Display maps True / False / Any to "True" / "False" / "Any" (the cells of the truth table)
+    TTD_ = [k for k in lib.ithir if k.endswith('Display>::fmt') and 'TruthTableEntry' in k]
+    if TTD_:
+        shown = {}
+        for m_ in walk(lib.ithir[TTD_[0]]['body']):
+            if m_['k'] != 'Match': continue
+            for a_ in m_['arms']:
+                q_ = a_['pat']
+                while q_['k'] in ('Deref', 'DerefPattern'): q_ = q_['sub']
+                if q_['k'] == 'Variant' and 'TruthTableEntry' in canon(q_.get('adt', '')):
+                    shown[q_['variant']] = [x['value'] for x in walk(a_['body']) if x['k'] == 'Literal' and x.get('lit') == 'Str']
+        if shown:
+            okd = all(shown.get(v_) == [v_] for v_ in ('True', 'False', 'Any'))
+            R.count('T:entry-display'); R.obligation(okd, 'T tte display')
+            if not okd: R.violation(TTD_[0] + ' / T / entry text', 'T', 'a table entry must be shown as its own name (True, False, Any); found %s' % shown)
     # from_str searches the list of variants with `matches`: the list must hold every variant (a spelling whose variant is not listed is refused)
     TT_ = 'rsbdd::truth_table::TruthTableEntry'
     tv = lib.ithir.get(TT_ + '::variants')
